@@ -22,6 +22,8 @@
 //!   40 v6 salt sizes per hash with a v6 RSA key
 //!   50 v6 primary with v4 subkey is refused on the public and the secret import path
 //!   60 fingerprints / key ids / issuer subpackets / PKESK recipient fields
+//!   61 every issuer subpacket of every signature key S makes over key E (16 combinations) names S; 62 the same for
+//!      key generation, detached and message builder signatures
 //! usage: c02_bounded <N> [replay-case-hex]
 use pgp::composed::{
     Deserializable, DetachedSignature, EncryptionCaps, Esk, KeyType, Message, MessageBuilder, SecretKeyParamsBuilder,
@@ -1261,7 +1263,177 @@ fn sig_families2(t: &mut Tally, k4: &SignedSecretKey, k4b: &SignedSecretKey, k6:
             Ok(true)
         });
     }
+    issuer_families(t, &all);
     salt_family(t);
+}
+
+// ------------------------------------------------------------ 61/62: issuer subpackets of every library-made signature
+/// identity of a key computed by the oracle from the key packet body: (version, fingerprint, key id)
+type Ident = (u8, Vec<u8>, Vec<u8>);
+
+fn ident(version: u8, k: &(impl Serialize + ?Sized)) -> Result<Ident, String> {
+    let fp = indep_fingerprint(version, &key_body(k)?);
+    let id = if version == 6 { fp[..8].to_vec() } else { fp[fp.len() - 8..].to_vec() };
+    Ok((version, fp, id))
+}
+
+/// EVERY issuer subpacket (hashed or unhashed) of `sig` names `signer`; v6 signatures carry no issuer key id;
+/// at least one issuer fingerprint is present; nothing names `signee` when it is another key.
+fn check_issuers(what: &str, sig: &Signature, signer: &Ident, signee: Option<&Ident>) -> Result<(), String> {
+    let cfg = sig.config().ok_or("unknown signature")?;
+    let sv: u8 = cfg.version().into();
+    ensure!(sv == signer.0, "(C15 issuer) {what}: v{} key made a v{sv} signature", signer.0);
+    let mut fps = 0;
+    for (area, sp) in cfg.hashed_subpackets().map(|s| ("hashed", s)).chain(cfg.unhashed_subpackets().map(|s| ("unhashed", s))) {
+        match &sp.data {
+            SubpacketData::IssuerKeyId(id) => {
+                ensure!(sv != 6, "(C13 issuer key id) {what}: v6 signature carries an {area} Issuer Key ID subpacket {}", hx(id.as_ref()));
+                let names_signee = signee.map(|e| e.2 == id.as_ref() && e.2 != signer.2).unwrap_or(false);
+                ensure!(id.as_ref() == &signer.2[..], "(C13 issuer key id) {what}: {area} Issuer Key ID {} is not the RFC key id {} of the key that made the signature{}", hx(id.as_ref()), hx(&signer.2), if names_signee { " (it is the key id of the SIGNEE)" } else { "" });
+            }
+            SubpacketData::IssuerFingerprint(fp) => {
+                fps += 1;
+                let v = match fp.version() {
+                    Some(KeyVersion::V4) => 4,
+                    Some(KeyVersion::V6) => 6,
+                    _ => 0,
+                };
+                let names_signee = signee.map(|e| e.1 == fp.as_bytes() && e.1 != signer.1).unwrap_or(false);
+                ensure!(fp.as_bytes() == &signer.1[..] && v == signer.0, "(C13 issuer fingerprint) {what}: {area} Issuer Fingerprint v{v} {} is not the RFC fingerprint v{} {} of the key that made the signature{}", hx(fp.as_bytes()), signer.0, hx(&signer.1), if names_signee { " (it is the fingerprint of the SIGNEE)" } else { "" });
+            }
+            _ => {}
+        }
+    }
+    ensure!(fps >= 1, "(C13 issuer fingerprint) {what}: library-made signature carries no Issuer Fingerprint subpacket");
+    Ok(())
+}
+
+fn issuer_families(t: &mut Tally, all: &[(u8, &SignedSecretKey); 4]) {
+    // 61: signer x signee
+    for &(si, signer) in all {
+        for &(ei, signee) in all {
+            let id = format!("61{si:02x}{ei:02x}");
+            t.case(&id, &|| format!("issuer subpackets of every signature key {si:02x} makes over key {ei:02x} / its components (user id, user attribute, subkey binding, back signature)"), || {
+                let same_version = si >> 4 == ei >> 4;
+                let spk = signer.primary_key.public_key();
+                let epk = signee.primary_key.public_key();
+                let s_id = ident(si >> 4, spk)?;
+                let e_id = ident(ei >> 4, epk)?;
+                let ssub = &signer.secret_subkeys[0].key;
+                let ssub_id = ident(si >> 4, ssub.public_key())?;
+                let esub = signee.secret_subkeys[0].key.public_key();
+                let esub_id = ident(ei >> 4, esub)?;
+                let pw = Password::empty();
+                let mut sigs: Vec<(String, Signature, &Ident, &Ident)> = vec![];
+                let uid = e2s(UserId::from_str(PacketHeaderVersion::New, "dave <dave@example.org>"), "C06", "uid")?;
+                let ua = e2s(pgp::packet::UserAttribute::new_image(vec![0xffu8, 0xd8, 0xff, 0xe0, 1, 2, 3].into()), "C06", "user attribute")?;
+                if si == ei {
+                    let s = e2s(uid.sign(ChaCha20Rng::seed_from_u64(61), &signer.primary_key, spk, &pw), "C06 issuer", "UserId::sign")?;
+                    sigs.extend(s.signatures.into_iter().map(|x| ("UserId::sign".to_string(), x, &s_id, &e_id)));
+                    let s = e2s(ua.sign(ChaCha20Rng::seed_from_u64(62), &signer.primary_key, spk, &pw), "C06 issuer", "UserAttribute::sign")?;
+                    sigs.extend(s.signatures.into_iter().map(|x| ("UserAttribute::sign".to_string(), x, &s_id, &e_id)));
+                }
+                for typ in [SignatureType::CertGeneric, SignatureType::CertPositive] {
+                    let s = e2s(uid.sign_third_party(ChaCha20Rng::seed_from_u64(63), &signer.primary_key, &pw, epk, typ), "C06 issuer", "UserId::sign_third_party")?;
+                    sigs.extend(s.signatures.into_iter().map(|x| (format!("UserId::sign_third_party {typ:?}"), x, &s_id, &e_id)));
+                    let s = e2s(ua.sign_third_party(ChaCha20Rng::seed_from_u64(64), &signer.primary_key, &pw, epk, typ), "C06 issuer", "UserAttribute::sign_third_party")?;
+                    sigs.extend(s.signatures.into_iter().map(|x| (format!("UserAttribute::sign_third_party {typ:?}"), x, &s_id, &e_id)));
+                }
+                // subkey bindings: the signer's primary binds the signee's subkey (public and secret form of `sign`)
+                let mut flags = KeyFlags::default();
+                flags.set_sign(true);
+                for secret in [false, true] {
+                    let r = if secret {
+                        signee.secret_subkeys[0].key.sign(ChaCha20Rng::seed_from_u64(65), &signer.primary_key, spk, &pw, flags.clone(), None)
+                    } else {
+                        esub.sign(ChaCha20Rng::seed_from_u64(65), &signer.primary_key, spk, &pw, flags.clone(), None)
+                    };
+                    match r {
+                        Ok(x) => sigs.push((format!("{}::sign (subkey binding)", if secret { "SecretSubkey" } else { "PublicSubkey" }), x, &s_id, &esub_id)),
+                        Err(e) if same_version => return Err(format!("(C06 issuer) subkey binding: {}", short(&e.to_string()))),
+                        Err(_) => {}
+                    }
+                }
+                // back signature: the signer's signing SUBKEY signs over the signee's primary key
+                match ssub.sign_primary_key_binding(ChaCha20Rng::seed_from_u64(66), epk, &pw) {
+                    Ok(x) => sigs.push(("SecretSubkey::sign_primary_key_binding".into(), x, &ssub_id, &e_id)),
+                    Err(e) if same_version => return Err(format!("(C06 issuer) primary key binding: {}", short(&e.to_string()))),
+                    Err(_) => {}
+                }
+                ensure!(sigs.len() >= 4, "too few signatures produced");
+                for (what, sig, who, over) in &sigs {
+                    check_issuers(what, sig, who, Some(over))?;
+                }
+                Ok(true)
+            });
+        }
+    }
+    // 62: per key: everything key generation made, detached and message signatures by primary and signing subkey
+    for &(ki, k) in all {
+        let id = format!("62{ki:02x}");
+        t.case(&id, &|| format!("issuer subpackets of the signatures made by key generation, DetachedSignature::sign_* and the message builder for key {ki:02x}"), || {
+            let v = ki >> 4;
+            let pk = k.primary_key.public_key();
+            let p_id = ident(v, pk)?;
+            let pw = Password::empty();
+            let mut n = 0;
+            for sig in k.details.direct_signatures.iter().chain(k.details.revocation_signatures.iter()) {
+                check_issuers("direct key signature of the generated key", sig, &p_id, None)?;
+                n += 1;
+            }
+            for u in &k.details.users {
+                for sig in &u.signatures {
+                    check_issuers("user id self-certification of the generated key", sig, &p_id, None)?;
+                    n += 1;
+                }
+            }
+            for u in &k.details.user_attributes {
+                for sig in &u.signatures {
+                    check_issuers("user attribute self-certification of the generated key", sig, &p_id, None)?;
+                    n += 1;
+                }
+            }
+            for sub in &k.secret_subkeys {
+                let sub_id = ident(v, sub.key.public_key())?;
+                for sig in &sub.signatures {
+                    check_issuers("subkey binding of the generated key", sig, &p_id, Some(&sub_id))?;
+                    n += 1;
+                    if let Some(emb) = sig.embedded_signature() {
+                        check_issuers("embedded back signature of the generated key", emb, &sub_id, Some(&p_id))?;
+                        n += 1;
+                    }
+                }
+            }
+            ensure!(n >= 4, "(C06 issuer) generated key carries only {n} signatures");
+            let ssub = &k.secret_subkeys[0].key;
+            let sub_id = ident(v, ssub.public_key())?;
+            let h = hash_of(pk);
+            let d = e2s(DetachedSignature::sign_binary_data(ChaCha20Rng::seed_from_u64(67), &k.primary_key, &pw, h, DOC), "C06", "sign")?;
+            check_issuers("DetachedSignature::sign_binary_data (primary)", &d.signature, &p_id, None)?;
+            let d = e2s(DetachedSignature::sign_text_data(ChaCha20Rng::seed_from_u64(67), &k.primary_key, &pw, h, DOC), "C06", "sign")?;
+            check_issuers("DetachedSignature::sign_text_data (primary)", &d.signature, &p_id, None)?;
+            let d = e2s(DetachedSignature::sign_binary_data(ChaCha20Rng::seed_from_u64(67), ssub, &pw, h, DOC), "C06", "sign")?;
+            check_issuers("DetachedSignature::sign_binary_data (signing subkey)", &d.signature, &sub_id, Some(&p_id))?;
+            let d = e2s(DetachedSignature::sign_text_data(ChaCha20Rng::seed_from_u64(67), ssub, &pw, h, DOC), "C06", "sign")?;
+            check_issuers("DetachedSignature::sign_text_data (signing subkey)", &d.signature, &sub_id, Some(&p_id))?;
+            // message builder: primary and subkey sign the same message
+            let mut b = MessageBuilder::from_bytes("", DOC.to_vec());
+            b.sign(&k.primary_key, Password::empty(), h);
+            b.sign(ssub, Password::empty(), h);
+            let bytes = e2s(b.to_vec(ChaCha20Rng::seed_from_u64(68)), "C06", "message")?;
+            let mut found = 0;
+            for p in PacketParser::new(&bytes[..]) {
+                if let Packet::Signature(s) = e2s(p, "C06", "packet")? {
+                    // the trailing signatures come in reverse order of signing
+                    let who = if found == 0 { &sub_id } else { &p_id };
+                    check_issuers("message builder signature", &s, who, None)?;
+                    found += 1;
+                }
+            }
+            ensure!(found == 2, "(C06 issuer) message carries {found} signatures instead of 2");
+            Ok(true)
+        });
+    }
 }
 
 fn key_body_full(k: &impl Serialize) -> Result<Vec<u8>, String> {
